@@ -121,7 +121,7 @@ class Run:
             e.update(env)
         t = time.time()
         try:
-            p = subprocess.run([binary] + args, capture_output=True, text=True, timeout=timeout, env=e, cwd=self.work)
+            p = subprocess.run([binary] + args, capture_output=True, text=True, errors="replace", timeout=timeout, env=e, cwd=self.work)
         except subprocess.TimeoutExpired:
             raise Inconclusive("harness timed out: %s" % " ".join(args))
         self.log("harness %s: rc=%d %.1fs %s" % (args[0], p.returncode, time.time() - t, p.stderr.strip()[-300:]))
@@ -147,7 +147,7 @@ class Run:
             e = dict(os.environ)
             e["TMPDIR"] = self.work
             try:
-                p = subprocess.run([binary, cmd, bf, tf] + (extra_args or []), capture_output=True, text=True, timeout=timeout, env=e, cwd=self.work)
+                p = subprocess.run([binary, cmd, bf, tf] + (extra_args or []), capture_output=True, text=True, errors="replace", timeout=timeout, env=e, cwd=self.work)
             except subprocess.TimeoutExpired:
                 raise Inconclusive("harness timed out: %s slice %d" % (cmd, i))
             os.unlink(bf)
@@ -222,7 +222,7 @@ class Run:
             e.update(env)
         t = time.time()
         try:
-            p = subprocess.run(cmd, cwd=d, env=e, capture_output=True, text=True, timeout=timeout)
+            p = subprocess.run(cmd, cwd=d, env=e, capture_output=True, text=True, errors="replace", timeout=timeout)
             out, rc = p.stdout + p.stderr, p.returncode
         except subprocess.TimeoutExpired as ex:
             out = (ex.stdout or b"").decode(errors="replace") if isinstance(ex.stdout, bytes) else (ex.stdout or "")
